@@ -575,8 +575,9 @@ def check(tier, seed):
 
     ev["wall_s"] = round(time.time() - t0, 1)
     ev["violations"] = len(violations)
-    os.makedirs(os.path.join(ROOT, "evidence"), exist_ok=True)
-    json.dump(ev, open(os.path.join(ROOT, "evidence", PROP + ".json"), "w"), indent=1)
+    evdir = os.environ.get("VERIF_EVIDENCE_DIR", os.path.join(ROOT, "evidence"))
+    os.makedirs(evdir, exist_ok=True)
+    json.dump(ev, open(os.path.join(evdir, PROP + ".json"), "w"), indent=1)
     for vname, pv in per_variant.items():
         log(f"  {vname}: {pv['matching']}/{pv['executed']} sequences match the model {pv['failures'] or ''}")
     for s in skipped:
